@@ -1,6 +1,6 @@
 Require Import WS.Base.Bytes WS.Base.Tape.
 Require WS.Cases.C13 WS.Cases.C03 WS.Cases.C04 WS.Cases.C05 WS.Cases.C06 WS.Cases.C08 WS.Cases.C17 WS.Cases.C07r.
-Require WS.Cases.C02 WS.Cases.C10 WS.Cases.C20 WS.Cases.C12 WS.Cases.C14.
+Require WS.Cases.C02 WS.Cases.C10 WS.Cases.C20 WS.Cases.C12 WS.Cases.C14 WS.Cases.C15.
 
 Definition judge_any (kind:N) (t:tape) : tape :=
   match kind with
@@ -15,6 +15,7 @@ Definition judge_any (kind:N) (t:tape) : tape :=
   | 10 => C10.judge t
   | 12 => C12.judge t
   | 14 => C14.judge t
+  | 15 => C15.judge t
   | 17 => C17.judge t
   | 20 => C20.judge t
   | _ => v_badtape
